@@ -26,6 +26,10 @@ func init() {
 			"re-queue semantics.",
 		Run: runC19,
 		Mutants: []Mutant{
+			{Name: "missing-pid-file-counts-as-reloaded", File: "internal/bgp/frr/config.go",
+				Old: "\tpid, err := os.ReadFile(reloaderPidFileName)\n", New: "\tpid, err := os.ReadFile(reloaderPidFileName)\n\tif os.IsNotExist(err) {\n\t\treturn nil\n\t}\n", Expect: "GENERATE"},
+			{Name: "reapply-before-first-config-ends-debouncer", File: "internal/bgp/frr/config.go",
+				Old: "\t\t\t\t\tcontinue // just ignore the event\n", New: "\t\t\t\t\treturn\n", Expect: "DEBOUNCE-STORE"},
 			{Name: "timer-armed-only-for-first-config", File: "internal/bgp/frr/config.go",
 				Old: "\t\t\t\tif !timerSet {\n\t\t\t\t\ttimeOut = time.After(reloadInterval)", New: "\t\t\t\tif !timerSet && config == newCfg.config {\n\t\t\t\t\ttimeOut = time.After(reloadInterval)", Expect: "DEBOUNCE-ARM"},
 			{Name: "timerset-cleared-on-failure", File: "internal/bgp/frr/config.go",
